@@ -18,7 +18,10 @@ PER_DEGREE_KEYS = {'pch': 'per_degree_pch_out_db', 'psd': 'per_degree_psd_out_mW
 # values: dBm for the reference carrier 32 GBaud / 50 GHz
 NODE_DBM = [-20.0, -25.0, -12.0]
 OVER_DBM = [-21.0, -17.0]
-VARIETIES = ['plain', 'imp', 'imp_pd']
+VARIETIES = ['plain', 'imp', 'imp_pd', 'impR', 'impR_pd0']
+# express profile in force: the per-degree choice if there is one, else the first express profile listed in the library
+# ('impR*': the library lists its profiles in the reverse order, so that id 3 comes before id 0)
+EXPRESS_ID = {'imp': 0, 'imp_pd': 3, 'impR': 3, 'impR_pd0': 0}
 C_LO, C_HI = 191.3e12, 196.1e12
 SPLIT = 193.5e12
 
@@ -27,6 +30,10 @@ SPECTRA = {
                    baud=[32e9, 32e9, 64e9, 32e9, 64e9, 16e9], slot=[50e9, 50e9, 75e9, 50e9, 75e9, 25e9],
                    dp=[0.0, -2.0, 1.5, 0.0, 1.5, -2.0]),
     'uniform4': dict(f=[193.0e12, 193.05e12, 193.1e12, 193.15e12], baud=[32e9] * 4, slot=[50e9] * 4, dp=[0.0] * 4),
+    # same size as uniform4, in the other frequency range of the per-band profiles, then back: consecutive crossings of one
+    # ROADM object by equally sized spectra that need different path losses
+    'high4': dict(f=[194.0e12, 194.05e12, 194.1e12, 194.15e12], baud=[32e9] * 4, slot=[50e9] * 4, dp=[0.0] * 4),
+    'low4_again': dict(f=[192.5e12, 192.55e12, 192.6e12, 192.65e12], baud=[32e9] * 4, slot=[50e9] * 4, dp=[0.0] * 4),
     'one': dict(f=[193.475e12], baud=[64e9], slot=[75e9], dp=[1.5]),
     'edge2': dict(f=[193.4625e12, 193.5375e12], baud=[64e9, 64e9], slot=[75e9, 75e9], dp=[0.0, -2.0]),
 }
@@ -76,7 +83,8 @@ def library(case):
             'restrictions': {'preamp_variety_list': [], 'booster_variety_list': []}}
     eq['Roadm'] = [
         dict(base, type_variety='plain', **{nk: value(case['lib_policy'], -19.0)}),
-        dict(base, type_variety='imp', **{nk: value(case['lib_policy'], -19.0), 'roadm-path-impairments': imp}),
+        dict(base, type_variety='imp', **{nk: value(case['lib_policy'], -19.0),
+                                          'roadm-path-impairments': imp[::-1] if case['variety'].startswith('impR') else imp}),
     ]
     return eq
 
@@ -88,7 +96,7 @@ def maxloss_for(case, kind, f):
         return 11.5 if f <= SPLIT else 5.0
     if kind == 'drop':
         return 11.5
-    if case['variety'] == 'imp_pd':
+    if EXPRESS_ID[case['variety']] == 3:
         return 2.0 if f <= SPLIT else 9.0
     return 16.5
 
@@ -100,7 +108,7 @@ def pmd_pdl_for(case, kind, f):
         return 0.0, (0.5 if f <= SPLIT else 0.2)
     if kind == 'drop':
         return 0.0, 0.0
-    if case['variety'] == 'imp_pd':
+    if EXPRESS_ID[case['variety']] == 3:
         return 1e-12, 0.1
     return 3e-12, 0.3
 
@@ -118,8 +126,9 @@ def topology(case):
         v = value(case['override'], OVER_DBM[case['over_val']])
         pb[PER_DEGREE_KEYS[case['override']]] = {egress_b: v}
         pa[PER_DEGREE_KEYS[case['override']]] = {egress_a: v}
-    if case['variety'] == 'imp_pd':
-        pb['per_degree_impairments'] = [{'from_degree': 'A>B:2:Edfa', 'to_degree': egress_b, 'impairment_id': 3}]
+    if case['variety'] in ('imp_pd', 'impR_pd0'):
+        pb['per_degree_impairments'] = [{'from_degree': 'A>B:2:Edfa', 'to_degree': egress_b,
+                                         'impairment_id': EXPRESS_ID[case['variety']]}]
     var = 'plain' if case['variety'] == 'plain' else 'imp'
     rp = {'A': {'type_variety': var, 'params': pa}, 'B': {'type_variety': var, 'params': pb},
           'C': {'type_variety': var, 'params': dict(params)}}
@@ -279,8 +288,8 @@ def run_net(case):
                 if src == 'trx C':
                     # reverse direction: per-degree overrides were put on the A->B / B->C egress only
                     rcase = dict(case, override='none')
-                    if case['variety'] == 'imp_pd':
-                        rcase['variety'] = 'imp'
+                    if case['variety'] in ('imp_pd', 'impR_pd0'):
+                        rcase['variety'] = case['variety'].split('_')[0]
                 else:
                     rcase = case
                 transitions += 1
@@ -369,8 +378,8 @@ def main(rep, tier, seed):
     results, stats = engine.run_pool('checks.c06', cases, horizon=300)
     rep.absorb(results)
     rep.cov['bound'] = ('full product: library policy x node policy{pch,psd,psw,library default} x 3 target values x per-degree '
-                        'override{none,pch,psd,psw} x 2 values x ROADM type{no impairments, per-band impairment profiles, '
-                        'element-selected profile}; per network 3 crossing kinds x 4 spectra x 7 input-level patterns x 3 carrier construction orders + 4 '
+                        'override{none,pch,psd,psw} x 2 values x ROADM type{no impairments, per-band impairment profiles listed in two orders, '
+                        'element-selected profile id 3 / id 0}; per network 3 crossing kinds x 6 spectra (two of them equally sized in different loss ranges, consecutively on one ROADM object) x 7 input-level patterns x 3 carrier construction orders + 4 '
                         'recorded propagations; part 2: all 8x8 subsets of equalisation keys at library and element level')
     rep.cov['space_size'] = len(cases)
     rep.cov['exhaustive'] = not stats['budget_hit'] and len(results) == len(cases)
